@@ -48,6 +48,30 @@ def run(tier):
         full["size_events"] += len(sizes)
         full["l1a_at_capacity"] += sum(1 for s in sizes if s[0] == capa)
         full["hot_at_hard_limit"] += sum(1 for s in sizes if s[2] == hard)
+    # query-result cache bound under searches (search lab): TieredSearch.tla behaviours incl. the exhaustive suffixes
+    import search_common as sc
+    from vlib import tlc as _tlc
+    qc_sizes = {"search_events": 0, "qc_at_capacity": 0}
+    fams = [("sim capq=1", lambda: sc.generate(n, 10, 1, 3, seed_off=300, np_=2, ni_=3, nsc=1), 1),
+            ("sim capq=2", lambda: sc.generate(n, 12, 2, 3, seed_off=301, np_=3, ni_=4, nsc=2), 2),
+            ("core capq=1", lambda: _tlc("TieredSearch", cfg="TieredSearchCore.cfg", workers=8, timeout=1200, consts={"CapQ": 1, "MaxOps": 5}), 1)]
+    for name, gen, capq in fams:
+        r = gen()
+        ck.add_tlc("TieredSearch %s" % name, r)
+        stats2, events2, cfgs2, bad_runs2 = sc.replay_and_judge(ck, r.json_lines, capq, "qc" + name.replace(" ", "").replace("=", ""))
+        nb += len(r.json_lines)
+        for e in events2:
+            if e["ev"] == "search":
+                qc_sizes["search_events"] += 1
+                qc_sizes["qc_at_capacity"] += 1 if e["qclen"] == capq else 0
+        for run, ln in sorted(sc.replay_and_judge.size_bad.items()):
+            e = events2[ln - 1]
+            b = dict(r.json_lines[run]); b["cfg"] = cfgs2[run]
+            first = sc.first_index(events2, run)
+            ck.violation({"kind": "search", "behaviour": b, "capq": capq, "rejected_event": e, "trace": events2[first:ln]},
+                         "query-result cache holds %d entries, capacity %d (behaviour %d of %s)" % (e["qclen"], capq, run, name))
+        ck.cov["traces_validated_against_impl"] += len(r.json_lines) - len(sc.replay_and_judge.size_bad)
+    full.update(qc_sizes)
     ck.assumptions += ["A/B strategy: each arm is a document cache of the configured capacity (as the server builds it); the bound is per arm",
                        "the recent-write tier bound is checked when an insert returns (as the property states)"]
     return ck.finish(dict(full, behaviours_replayed=nb, events_judged=tot_ev, constants=tc.CONSTS))
@@ -57,5 +81,11 @@ def replay(path):
     rep = json.load(open(path))
     ck = Check("C20", "quick")
     vlib.build()
+    if rep.get("kind") == "search":
+        import search_common as sc
+        stats2, events2, cfgs2, bad_runs2 = sc.replay_and_judge(ck, [rep["behaviour"]], rep.get("capq", 1), "replay")
+        for run, ln in sc.replay_and_judge.size_bad.items():
+            ck.violation(rep, "query-result cache above capacity on replay: %s" % json.dumps(events2[ln - 1])[:200])
+        return ck.finish()
     judge(ck, [rep["behaviour"]], rep.get("capa", 1), rep.get("hard", 1), "replay")
     return ck.finish()
